@@ -23,8 +23,8 @@ CLAIMS = {
    note="Not decided: that sort.Sort/Stable/Search and rand.Shuffle meet their contracts (trusted)."),
  "C16": dict(cat="other", sec="4 C16",
    technique="static path tables over go/ssa: opposite-ends and same-element rules for Queue, last-index rules for Stack",
-   text="Every path of every Queue/Stack method is matched against the wrapper table: Enqueue inserts once at one end, Dequeue/Peek read the opposite end with the same accessor, Dequeue removes exactly what it read, Stack acts on index len-1 of the slice as loaded on entry and truncates by exactly one, empty rows change nothing; Queue keeps no state outside the List. With C06 (List equals container/list) and append semantics this is FIFO/LIFO for every history.",
-   note="Depends on C06 for List. Language semantics of append/slicing trusted."),
+   text="Every path of every Queue/Stack method is matched against the wrapper table: Enqueue inserts once at one end, Dequeue/Peek read the opposite end with the same accessor, Dequeue removes exactly what it read, Stack acts on index len-1 of the slice as loaded on entry and truncates by exactly one, empty rows change nothing; Queue keeps no state outside the List. The container/list half of C06's translation validation is re-run here (list/* obligations), so that with append semantics this is FIFO/LIFO for every history.",
+   note="Language semantics of append/slicing trusted; GOROOT container/list is the reference for List."),
  "C17": dict(cat="other", sec="4 C17",
    technique="static wrapper-protocol check over go/ssa paths and closures (sync.Once usage discipline)",
    text="Each Do is shown to call sync.Once.Do exactly once on the receiver's own Once field, with a closure that calls the user function exactly once and stores every result field from that call; Do returns the fields loaded after once.Do returned; nobody else writes those fields. With sync.Once's contract these are jointly sufficient for exactly-once execution and shared, visible results under every schedule.",
@@ -35,11 +35,11 @@ CLAIMS = {
    note="Register linearizability and the one-holder discipline are the contracts of atomic.Value and sync.Pool (trusted); the rules decide that the wrapper preserves them."),
  "C19": dict(cat="other", sec="4 C19",
    technique="static path summaries over select arms (go/ssa): transfer-iff-reported tables, comma-ok typestate, non-blocking/bounded loop shape",
-   text="Because exactly one select arm runs, a path through the send/receive arm is a transfer and one through the timer/Done/default arm is not; the check shows each helper returns the constant true / the received (value, ok) exactly on transfer paths and false / (zero,false) exactly on the others, never transfers twice, treats non-positive timeouts as unlimited, and that the queued receivers accumulate only on the comma-ok true edge inside a bounded loop over a select with default.",
+   text="Because exactly one select arm runs, a path through the send/receive arm is a transfer and one through the timer/Done/default arm is not; the check shows each helper returns the constant true / the received (value, ok) exactly on transfer paths and false / (zero,false) exactly on the others, never transfers twice, gives up only on paths that established timeout > 0 and transfers un-timed only on paths that established timeout <= 0, and that the queued receivers accumulate only on the comma-ok true edge inside a bounded loop over a select with default.",
    note="Not decided: fairness between ready arms (either outcome allowed). Trusts Go's select and closed-channel semantics."),
  "C04": dict(cat="other", sec="4 C04",
    technique="static lock-set / typestate / atomic-protocol analysis over go/ssa path summaries with interprocedural requires-lock summaries",
-   text="Decides the necessary conditions of the read/dirty algorithm on all paths of all functions of sync2/map.go: guarded-by (dirty, misses, read.Store under mu, through callers for unexported helpers), lock pairing, atomic-only access to entry.p, re-check under the lock (no use of a pre-Lock snapshot after Lock), promotion only after a fresh amended/dirty-hit test, the CAS protocol on entry.p (expunged only by CAS from nil under mu, plain stores only under mu into non-expungeable entries), unexpunge-reinserts, amended-on-new-key, promotion pairing, read-map immutability, Range's promote-then-iterate-unlocked shape, no callback under the lock, and effect completeness of Store/Load/LoadOrStore/LoadAndDelete/Delete. Each violated rule corresponds to a data race or a lost/resurrected key under some schedule.",
+   text="Decides the necessary conditions of the read/dirty algorithm on all paths of all functions of sync2/map.go: guarded-by (dirty, misses, read.Store under mu, through callers for unexported helpers), lock pairing, atomic-only access to entry.p, re-check under the lock (no use of a pre-Lock snapshot after Lock), promotion only after a fresh amended/dirty-hit test, the CAS protocol on entry.p (expunged only by CAS from nil under mu, plain stores only under mu into non-expungeable entries), unexpunge-reinserts, amended-on-new-key, promotion pairing, read-map immutability, Range's promote-then-iterate-unlocked shape, no callback under the lock, the entry helpers' result rows against what the path knows about the loaded word, re-load in every CAS retry iteration, and effect completeness of Store/Load/LoadOrStore/LoadAndDelete/Delete. In the thorough tier the same rules are run on GOROOT's sync/map.go as a negative control and must report nothing. Each violated rule corresponds to a data race or a lost/resurrected key under some schedule.",
    note="NOT decided: linearizability proper (that the local disciplines compose), Range completeness, memory-model reasoning beyond lock/atomic protection - a static argument in reach cannot bound schedules; these necessary conditions are what is claimed."),
  "C05": dict(cat="other", sec="4 C05",
    technique="static wrapper-protocol check (one atomic map operation per path, flag mapping, counting closure) + the C04 map protocol rules",
@@ -51,19 +51,19 @@ CLAIMS = {
    note="Fairness and ClearKey under contention are outside the property. Map.LoadOrStore's atomicity is covered by necessary protocol conditions, not a linearizability proof."),
  "C08": dict(cat="other", sec="4 C08",
    technique="static address-arithmetic analysis: polynomial normal forms of every index/span on the backing slice, bounds from path guards/loop headers/call-site obligations (go/ssa path summaries)",
-   text="Every index and span applied to Array2D's backing slice is split as Q1*width + Q0 and shown, on every path reaching it, to satisfy 0<=Q1<height and 0<=Q0<width (spans: ordered, within one row), with bounds taken from the path's own guards, loop headers and, for helpers and internally called methods, obligations at each call site. By the stated lemma this is exactly injectivity of the cell mapping for every shape; constructors, Fill's rectangle and Clone's detachment are decided as tables.",
-   note="Not decided: String formatting; copy's truncation semantics (language). The arithmetic lemma (x + y*W bijective on [0,W)x[0,H)) is stated, not machine-checked."),
+   text="Every index and span applied to Array2D's backing slice is split as Q1*width + Q0 and shown, on every path reaching it, to satisfy 0<=Q1<height and 0<=Q0<width (spans: ordered, within one row), with bounds taken from the path's own guards, loop headers and, for helpers and internally called methods, obligations at each call site. By the stated lemma this is exactly injectivity of the cell mapping for every shape; constructors (incl. New2DFromJagged), Fill's rectangle, Clone's detachment, the exact windows of Row/RowSpan, complete and exact coordinate guards on every returning/panicking path, and String's one-print-per-cell loop nest are decided as tables.",
+   note="Not decided: String's punctuation; copy's truncation semantics (language). The arithmetic lemma (x + y*W bijective on [0,W)x[0,H)) is stated, not machine-checked."),
  "C07": dict(cat="other", sec="4 C07",
    technique="static ownership/encapsulation, sentinel-flow and path-table analysis over go/ssa (closures resolved through their bindings)",
-   text="Decides who may write Sorted's backing slice (only Insert in Add, Remove in Remove/RemoveAt), that it is never aliased in or out (NewSorted makes+copies on every path and leaves its argument alone; nothing returns the slice), that positions come from sort.Search over the whole length with the lower-bound predicate !less(s[i],value), that Index validates with == and < Len, that Remove deletes only at a validated position and otherwise returns -1 unchanged, and package-wide that a -1 sentinel never reaches an index.",
+   text="Decides who may write Sorted's backing slice (only Insert in Add, Remove in Remove/RemoveAt), that it is never aliased in or out (NewSorted makes+copies on every path and leaves its argument alone; nothing returns the slice), that positions come from sort.Search over the whole length with the lower-bound predicate !less(s[i],value), that Index validates with == and < Len, that Remove deletes only at a validated position and otherwise returns -1 unchanged, that Get/RemoveAt proceed exactly on 0 <= index < Len and panic exactly outside, that explicit panics are justified, that the Insert/Remove primitives shift by exactly one on the grown slice (C12's rows, re-run here), that every constructor returning a Sorted copies and sorts, and package-wide that a -1 sentinel never reaches an index.",
    note="Not decided: the inductive step to 'sorted after every history' (needs sort.Search's semantics on sorted data, trusted, plus C12's splice clauses)."),
  "C01": dict(cat="other", sec="4 C01",
-   technique="static path-table and flow rules over go/ssa: size-cache coherence, definite assignment of the comparator, descent agreement, traversal-order tables, subtree conservation",
-   text="Decides the structural necessary conditions of the sorted-multiset property on all paths of avl/avl.go: Len's cache changes exactly with successful insertions/removals, every Tree built in the package has a comparator and keeps it, Clone re-inserts a walk into a fresh tree, add/find/remove agree on which child holds smaller/larger values and test == first, the three walkers visit in their order recursing into themselves and the public walkers/slices dispatch to the matching one, and node.remove hands every child subtree of the unlinked node to the result exactly once without overwriting a live child pointer.",
-   note="Not decided: that these compose to 'in-order walk = sorted multiset after every history' (an inductive invariant over runtime values)."),
+   technique="static path-table and flow rules over go/ssa: size-cache coherence, definite assignment of the comparator, descent agreement, traversal-order tables, subtree conservation; abstract execution of every mutator on symbolic in-order sequences (shape.go); null-guard; search decision table",
+   text="Decides the structural necessary conditions of the sorted-multiset property on all paths of avl/avl.go: Len's cache changes exactly with successful insertions/removals, every Tree built in the package has a comparator and keeps it, Clone re-inserts a walk into a fresh tree, add/find/remove agree on which child holds smaller/larger values and test == first, the three walkers visit in their order recursing into themselves and the public walkers/slices dispatch to the matching one, node.remove hands every child subtree of the unlinked node to the result exactly once; and - the inductive step of the property - every mutator is executed abstractly on symbolic in-order sequences: rotations and rebalance return their receiver's sequence, add returns it with the value inserted exactly once on the side the comparison selects, remove returns it without the unlinked node or with the child's removal spliced in exactly on success, popLeftMost splits it into first and rest, Tree.Add/Remove install that at the root; no child/root pointer is dereferenced untested; Contains/find are decided as a table.",
+   note="Not decided: the induction itself over all histories (each step is decided, under the tree-shape assumption that distinct access paths denote distinct nodes and a callee changes only the subtree it was handed); comparators inconsistent with ==."),
  "C02": dict(cat="other", sec="4 C02",
-   technique="static typestate/path-table rules over go/ssa: height-refresh-before-escape, rebalance-on-return, height convention by constant propagation, rotation decision table with structural rotation classification",
-   text="Decides that avl/avl.go is the textbook AVL update: after every child store the node's cached height is recomputed before the node flows upwards, every modified subtree root is returned through rebalance, the empty-subtree height is one less than a leaf's, balance() leans exactly at a difference above one, rebalance maps (outer lean, strict sign of the heavy child's lean) to the four rotations which are recognised by structure, and rotations re-height the demoted node before the promoted one.",
+   technique="static typestate/path-table rules over go/ssa: height-refresh-before-escape, rebalance-on-return, height convention by constant propagation, rotation decision table, exact rotation shape by abstract execution (shape.go)",
+   text="Decides that avl/avl.go is the textbook AVL update: after every child store the node's cached height is recomputed before the node flows upwards, every modified subtree root is returned through rebalance, the empty-subtree height is one less than a leaf's, balance() leans exactly at a difference above one, rebalance maps (outer lean, strict sign of the heavy child's lean) to the four rotations which are recognised by structure and whose result shape is computed symbolically ((L n RL) r RR for a left rotation), and rotations re-height the demoted node before the promoted one.",
    note="Not decided: the induction from these rules to |lean| <= 1 everywhere and the 1.44 log2 depth bound (needs a height/shape abstract domain with an inductive proof; out of reach)."),
  "C03": dict(cat="other", sec="4 C03",
    technique="static pass-table extraction over go/ssa (loops and Range-closures), effect/ownership rules (operands read-only, results fresh), counting-closure tables + the C04 map protocol rules",
@@ -71,11 +71,11 @@ CLAIMS = {
    note="Not decided: element-level equality of results for all operand pairs and histories (follows from the pass table plus Go map / Map.Range semantics, which are assumed, not analysed)."),
  "C10": dict(cat="other", sec="4 C10",
    technique="static lock-region / typestate / dataflow rules over go/ssa path summaries (RWMutex modes, goroutine join before unlock, WaitGroup accounting as polynomial equality, loop tables)",
-   text="Decides lock discipline on the subscriber list, that every send on a subscriber channel is covered by the lock region that excludes close (synchronously, or by joining the goroutines before unlocking), that channels do not migrate between PubSub values with different mutexes, WaitGroup accounting, fan-out completeness and order, close/removal pairing, the timeout-or-delivery dichotomy, the error table, the WithOnly filter and Sub/SubBuf. Three genuine violations on the current tree (Pub, PubSlice, WithOnly) are listed in known_findings.json with concrete crashing schedules.",
+   text="Decides lock discipline on the subscriber list, that every send on a subscriber channel is covered by the lock region that excludes close (synchronously, or by joining the goroutines before unlocking), that channels do not migrate between PubSub values with different mutexes, WaitGroup accounting, fan-out completeness and order, close/removal pairing, the timeout-or-delivery dichotomy, the error table, the WithOnly filter (own storage for the clone's list), Sub/SubBuf, RWMutex mode pairing on every path, subIndex's scan, that search/close/splice of Unsub share one write-locked region, and SendTimeout's transfer-iff-true table (C19's row, re-run here). Three genuine violations on the current tree (Pub, PubSlice, WithOnly) are listed in known_findings.json with concrete crashing schedules.",
    note="Not decided: eventual delivery of Pub/PubSlice, liveness, deadlock freedom (schedules)."),
  "C11": dict(cat="other", sec="4 C11",
    technique="static pairing rules over go/ssa paths: paired map writes, partner-from-hit-lookup deletes, eviction table, ownership/escape",
-   text="Every write to one index of the Bimap is shown to be paired on the same path with the matching write to the other (inserts mirrored; deletes paired with the partner's delete or overwrite, the partner coming from a lookup known to have hit); Add decides both collisions on every path and evicts stale entries first; only Add/RemoveForward/RemoveReverse/Clear write the maps and nothing returns them; Clone copies both maps freshly on every path; the views are single lookups.",
+   text="Every write to one index of the Bimap is shown to be paired on the same path with the matching write to the other (inserts mirrored; deletes paired with the partner's delete or overwrite, the partner coming from a lookup known to have hit); Add decides both collisions on every path and evicts stale entries first; only Add/RemoveForward/RemoveReverse/Clear write the maps and nothing returns them; Clone copies both maps freshly on every path; the two maps are created together, only when absent, and written only when present; the views are single lookups.",
    note="Not decided: the inductive step from paired writes to 'inverse bijections after every history' (an argument over runtime state; immediate for Go maps)."),
  "C12": dict(cat="other", sec="4 C12",
    technique="static index-relation checks (polynomial normal forms) and origin (freshness) analysis over go/ssa paths",
